@@ -91,7 +91,7 @@ impl RawTableInner {
     // error nothing changed and the caller asked for fallible behaviour
     #[verifier::external_body]
     pub fn resize_inner<A: Allocator>(&mut self, alloc: &A, capacity: usize, hasher: &HasherDyn, fallibility: Fallibility, layout: TableLayout) -> (r: Result<(), TryReserveError>)
-        requires old(self).counts_ok(), old(self).items <= capacity,
+        requires old(self).counts_ok(), old(self).items <= capacity, capacity > 0,
         ensures
             r is Ok ==> {
                 &&& final(self).counts_ok()
